@@ -41,6 +41,9 @@ for D in (1, 2, 3):
     same_view = lambda v, snap: ' && '.join(['%s == OLD(%s)' % (lp(v, k, x), lp(v, k, x)) for k in range(D) for x in ('stride_', 'offset_', 'nelems_')] + ['%s->base_ == OLD(%s->base_)' % (v, v)])
     no_lifecycle = 'G_nalloc == 0 && G_ndealloc == 0 && G_nctor == 0 && G_ndtor == 0 && %s == 2 && %s == 2*G_ELEMS' % (owned_blocks(), total_live())
     for nm, srcconst, call, tag in (('assign', True, '*d = *s;', 'operator=(const_subarray const&)'), ('assign_rv', False, '*d = std::move(*s);', 'operator=(subarray&&)'),
+                                    ('assign_rvdst', True, 'std::move(*d) = *s;', 'operator=(const_subarray const&) && (temporary destination view, e.g. A.transposed() = B)'),
+                                    ('assign_sub', False, '*d = *s;', 'operator=(subarray const&) & (named mutable source view)'),
+                                    ('assign_rv_rvdst', False, 'std::move(*d) = std::move(*s);', 'operator=(const_subarray&&) && (both views temporaries)'),
                                     ('elements_assign', False, 'd->elements() = std::move(*s).elements();', 'elements() = elements()')):
         Check('V%d_%s' % (D, nm), ['C05', 'C03'], params=['d', 's'], fn='w_V%d_%s' % (D, nm),
               wrapper=('void', 'multi::subarray<E, %d, E*>* d, multi::%s<E, %d, E*>%s* s' % (D, 'const_subarray' if srcconst else 'subarray', D, ' const' if srcconst else ''), call),
@@ -52,7 +55,7 @@ for D in (1, 2, 3):
                        ('nothing is constructed, destroyed, allocated or released; exactly one assignment per viewed element', no_lifecycle + ' && G_nassign == ' + ' * '.join('g_n%d' % k for k in range(D))),
                        ('the views are not rebound or resized', same_view('d', 0) + ' && ' + same_view('s', 0))],
               covers=[' && '.join('g_n%d == %d' % (k, BNDS[D][k]) for k in range(D)) + (' && d->stride_ < d->sub_.stride_' if D > 1 else ''), 'g_n0 == 0'] + (['g_n0 == 3 && d->stride_ == 2', 'g_n0 == 2 && d->stride_ < 0'] if D == 1 else []),
-              assigns=[], **COMMON, tier='quick' if (D == 1 or (D == 2 and nm in ('assign', 'elements_assign'))) else 'thorough')
+              assigns=[], **COMMON, tier='quick' if (D == 1 or (D == 2 and nm in ('assign', 'assign_rvdst', 'assign_sub', 'elements_assign'))) else 'thorough')
     # fill: every viewed element gets the value, nothing else is touched  (D = 1 only: fill(scalar) on a D >= 2 view does not compile at the pinned commit,
     # adl_fill_n assigns the scalar to sub-views)
     if D == 1: Check('V%d_fill' % D, ['C05'], params=['d', 's', 'fv'], fn='w_V%d_fill' % D,
